@@ -21,7 +21,7 @@ Step ==
           /\ last' = [a |-> "init"] /\ steps' = 0
      ELSE LET a == Act(Line.act)  o == Seen(Line.obs)
               new == Apply(tags, a.set, a.del)
-              pred == IF Size(new) > Limit THEN ObsOf(tags, new, 1) ELSE ObsOf(new, new, 0)
+              pred == IF Size(new) > Limit THEN ObsOf(tags, file, 1) ELSE ObsOf(new, new, 0)
           IN  /\ tags' = o.tags /\ file' = o.file /\ obs' = o /\ last' = a /\ steps' = steps + 1
               /\ M' = MonStep(M, a, o)
               /\ (pred # o) => PrintT(<<"DIVERGE", l>>)
